@@ -240,6 +240,12 @@ namespace bloch::runtime {
             Value value;
             bool tracked = false;
             bool initialized = false;
+            // Position in declaration order; a scope lets its values die in reverse order of it.
+            std::size_t order = nextOrder();
+            static std::size_t nextOrder() {
+                static std::size_t counter = 0;
+                return ++counter;
+            }
         };
         std::vector<std::unordered_map<std::string, VarEntry>> m_env;
         // Index of the first scope of the function/method/constructor body being executed.
